@@ -119,17 +119,148 @@ pub fn eval(c: &Case) -> Eval {
         .class_if(c.only_a == 0 || c.only_b == 0, "nested"))
 }
 
+
+// ------------------------------------------------------------------------------------------------ control variate
+// The items of a trial are fresh random labels, hence exchangeable: whatever the sketcher does, each position of the sketch of
+// the union U = A u B holds any given item of U with the same probability, so the fraction of positions of U's sketch holding an
+// item of A & B has expectation exactly J. D = (fraction of equal positions of A's and B's sketches) - (that fraction) therefore has
+// expectation E[collisions] - J, and a far smaller variance than the collision fraction itself (positions that collide are mostly the
+// positions where the union holds a common item). E D = 0 is decided by empirical Bernstein; this resolves relative biases of a
+// fraction of a percent in the sparse regime, where the plain mean test would need 100x the trials.
+// Which item a position of U holds is read from the u64 view (observed to be the hash of the item held); the premise is verified on
+// every trial (every u64 value of U's sketch must be the hash of an item of U) and the case is skipped when it does not hold.
+
+fn sample_cv(c: &Case, seed: u64, trials: u64) -> (Vec<Acc>, bool) {
+    let mut rng = SmRng::new(seed);
+    let mut sa = make(c.kind, c.m, &DUMMY);
+    let mut sb = make(c.kind, c.m, &DUMMY);
+    let mut su = make(c.kind, c.m, &DUMMY);
+    let mut accs = vec![Acc::default(); 3];
+    let (mut va, mut vb, mut vu): (Vec<u64>, Vec<u64>, Vec<u64>) = (vec![], vec![], vec![]);
+    let mut premise = true;
+    let mut common: std::collections::HashSet<u64> = std::collections::HashSet::new();
+    let mut all: std::collections::HashSet<u64> = std::collections::HashSet::new();
+    for _ in 0..trials {
+        sa.reinit();
+        sb.reinit();
+        su.reinit();
+        va.clear();
+        vb.clear();
+        vu.clear();
+        common.clear();
+        all.clear();
+        for i in 0..(c.only_a + c.only_b + c.both) {
+            let x = rng.next_u64();
+            all.insert(su.hash_of(x));
+            vu.push(x);
+            if i < c.only_a {
+                va.push(x);
+            } else if i < c.only_a + c.only_b {
+                vb.push(x);
+            } else {
+                va.push(x);
+                vb.push(x);
+                common.insert(su.hash_of(x));
+            }
+        }
+        // the union is presented in a shuffled order (no position of the stream is special)
+        for i in (1..vu.len()).rev() {
+            vu.swap(i, rng.below(i as u64 + 1) as usize);
+        }
+        sa.slice(&va);
+        sb.slice(&vb);
+        su.slice(&vu);
+        let (wa, wb, wu) = (sa.views(), sb.views(), su.views());
+        let uh = wu.get("u64").unwrap();
+        if !uh.iter().all(|h| all.contains(h)) {
+            premise = false;
+            break;
+        }
+        let ctl = uh.iter().filter(|h| common.contains(h)).count() as f64 / c.m as f64;
+        for (vi, name) in ["float", "u64", "u32"].iter().enumerate() {
+            let (x, y) = (wa.get(name).unwrap(), wb.get(name).unwrap());
+            let eq = x.iter().zip(y.iter()).filter(|(p, q)| p == q).count();
+            // mapped into [0,1]: X = (D + 1) / 2, E X = 1/2 under the property
+            accs[vi].push(0.5 * (eq as f64 / c.m as f64 - ctl + 1.0));
+        }
+    }
+    (accs, premise)
+}
+
+pub fn eval_cv(c: &Case) -> Eval {
+    let j = jaccard(c.only_a, c.only_b, c.both);
+    let (_, premise) = sample_cv(c, c.seed ^ 0x5EED, 8);
+    if !premise {
+        return Ok(Report::new(false).class("u64-view-is-not-the-hash-of-the-item-held(skipped)"));
+    }
+    let checks: Vec<Check> = ["float view", "u64 view", "u32 view"]
+        .iter()
+        .map(|n| Check { name: format!("mean of (1 + fraction of equal positions ({}) - fraction of positions of the union's sketch holding a common item) / 2, which is 1/2 when the expected collision fraction is J", n), want: Want::Mean { mu: 0.5, var_h: None } })
+        .collect();
+    let what = format!("{:?} m={} |A\\B|={} |B\\A|={} |A&B|={} J={:.6}", c.kind, c.m, c.only_a, c.only_b, c.both, j);
+    let ok_premise = std::sync::atomic::AtomicBool::new(true);
+    let tests = decide_multi(&what, &checks, c.trials, c.seed, &|s, t| {
+        let (a, p) = sample_cv(c, s, t);
+        if !p {
+            ok_premise.store(false, std::sync::atomic::Ordering::Relaxed);
+            // neutral accumulators: the case is reported as skipped below
+            return vec![{ let mut z = Acc::default(); z.push(0.5); z.push(0.5); z }; 3];
+        }
+        a
+    })?;
+    if !ok_premise.load(std::sync::atomic::Ordering::Relaxed) {
+        return Ok(Report::new(false).class("u64-view-is-not-the-hash-of-the-item-held(skipped)"));
+    }
+    let union = c.only_a + c.only_b + c.both;
+    let nmax = (c.only_a + c.both).max(c.only_b + c.both);
+    Ok(Report::new(j > 0.0 && j < 1.0)
+        .trials(3 * c.trials)
+        .resolution(2.0 * tests[0].tol)
+        .class(format!("{:?}", c.kind))
+        .class_if(2 * nmax <= c.m, "sparse(at-least-half-the-bins-filled-by-densification)")
+        .class_if(8 * union <= c.m, "very-sparse(fill<=1/8)")
+        .class_if(union >= 2 * c.m, "fill>=2"))
+}
+
+fn cv_strategy(work: u64) -> impl Strategy<Value = Case> {
+    let kinds = vec![Kind::OptF64, Kind::OptF32, Kind::RevF64, Kind::RevF32];
+    let fill = prop::sample::select(vec![1.0 / 16.0, 0.125, 0.2, 0.35, 0.5, 0.8, 1.0, 2.0, 3.0]);
+    (prop::sample::select(kinds), prop_oneof![1 => 2usize..16, 3 => 16usize..200, 1 => prop::sample::select(vec![16usize, 32, 64, 128, 256])], fill, 0.05f64..0.95, 0.0f64..1.0, any::<u64>()).prop_map(move |(kind, m, fill, jfrac, split, seed)| {
+        let union = ((fill * m as f64).round() as usize).max(2);
+        let both = ((jfrac * union as f64).round() as usize).clamp(1, union - 1);
+        let rest = union - both;
+        let only_a = (split * rest as f64).round() as usize;
+        let only_b = rest - only_a;
+        let n_min = (only_a + both).min(only_b + both).max(1) as u64;
+        let dens_cost = match kind {
+            Kind::OptF64 | Kind::OptF32 => (m as u64) * (1 + (m as u64) / n_min).min(200),
+            _ => (m as u64) * 12,
+        };
+        let per_trial = 4 * union as u64 + 3 * dens_cost;
+        let trials = (work / per_trial.max(1)).clamp(20_000, 400_000);
+        Case { kind, m, only_a, only_b, both, trials, seed }
+    })
+}
+
 pub fn run(ctx: &Ctx) {
     ctx.set_rule("proptest generates (algorithm Opt/RevOpt with f64/f32, m from 1 upward, fill ratio |A u B|/m in {1/64 .. 50}, Jaccard fraction, split of the difference, shapes general / nested / single common item, trial seed). \
         Per trial fresh random items, both sets sketched with sketch_slice; three statistics per trial: fraction of equal positions in the float, u64 and u32 views. Oracle J = |A&B|/|A u B|. Decision: Bernstein with the generic variance J(1-J) and empirical Bernstein (positions are strongly correlated after densification), \
-        delta 1e-14, confirmation on an independent seed with 4x trials. Non-trivial = 0 < J < 1. Trials come from a work budget (sparse cases are cheap and get up to 4e5 trials).");
+        delta 1e-14, confirmation on an independent seed with 4x trials. Non-trivial = 0 < J < 1. Trials come from a work budget (sparse cases are cheap and get up to 4e5 trials). \
+        Sub-check control-variate (m 2..256, fill 1/16..3): per trial the union is sketched as well; the items being fresh random labels are exchangeable, so the fraction of positions of the union's sketch that hold an item of A&B has expectation exactly J whatever the algorithm; \
+        D = collision fraction - that fraction has expectation E[collisions] - J and a far smaller variance; E D = 0 is decided by empirical Bernstein (delta 1e-14, confirmation on an independent seed), 2e4 .. 4e5 trials per case. The item held by a position is read from the u64 view (verified per trial to be the hash of an item of the union; the case is skipped otherwise).");
     super::run_fixed_tier(ctx, replay);
     let (cases, max_m, work) = ctx.tier.pick((160, 512, 12_000_000), (2400, 4096, 60_000_000));
     ctx.drive("unbiased", cases, 16, 16, || strategy(max_m, work), eval);
+    let (cases, work) = ctx.tier.pick((64, 60_000_000), (960, 300_000_000));
+    ctx.drive("control-variate", cases, 16, 4, || cv_strategy(work), eval_cv);
 }
 
 pub fn replay(ctx: &Ctx, sub: &str, case: &Value) -> Result<(), String> {
     let c: Case = parse_case(case)?;
+    if sub == "control-variate" {
+        ctx.run_fixed(sub, &c, eval_cv);
+        return Ok(());
+    }
     ctx.run_fixed(sub, &c, eval);
     Ok(())
 }
